@@ -55,3 +55,42 @@ Theorem C16_labels_separated :
   length STR_AUTH_KEY <> length STR_MASKING_KEY /\ length STR_EXPORT_KEY <> length STR_MASKING_KEY.
 Proof. exact generated_labels_separated. Qed.
 Print Assumptions C16_labels_separated.
+
+
+(* separation (Theory/ExportKey.v): the export key equals the envelope's authentication key, the stored masking
+   key, a session key, or the export key of another (randomized password, envelope nonce) - i.e. of another
+   registration, password, user or server - only if an HMAC collision is exhibited *)
+From OKE Require Import Bad ExportKey.
+Theorem C16_separated_from_other_registrations :
+  forall E Sc Pk Sk (CS : Suite E Sc Pk Sk), HashLaws (hash CS) ->
+  forall rp nonce ak ek rp' nonce' ak' ek',
+    length rp = length rp' -> length nonce = length nonce' ->
+    envelope_keys CS rp nonce = Ok (ak, ek) -> envelope_keys CS rp' nonce' = Ok (ak', ek') ->
+    ek = ek' -> (rp = rp' /\ nonce = nonce') \/ Bad (hash CS).
+Proof. exact @export_keys_separated. Qed.
+Print Assumptions C16_separated_from_other_registrations.
+
+Theorem C16_not_the_auth_key :
+  forall E Sc Pk Sk (CS : Suite E Sc Pk Sk), HashLaws (hash CS) ->
+  forall rp nonce ak ek, envelope_keys CS rp nonce = Ok (ak, ek) -> ek = ak -> Bad (hash CS).
+Proof. exact @export_key_is_not_auth_key. Qed.
+Print Assumptions C16_not_the_auth_key.
+
+Theorem C16_not_the_masking_key :
+  forall E Sc Pk Sk (CS : Suite E Sc Pk Sk), HashLaws (hash CS) ->
+  forall rp nonce ak ek mk,
+    length nonce = ENVELOPE_NONCE_LEN ->
+    envelope_keys CS rp nonce = Ok (ak, ek) ->
+    hkdf_expand (hash CS) rp STR_MASKING_KEY (h_len (hash CS)) = Some mk -> ek = mk -> Bad (hash CS).
+Proof. exact @export_key_is_not_masking_key. Qed.
+Print Assumptions C16_not_the_masking_key.
+
+Theorem C16_session_key_is_not_export_key :
+  forall E Sc Pk Sk (CS : Suite E Sc Pk Sk), HashLaws (hash CS) ->
+  forall rp nonce ak ek prk th sk,
+    length nonce = ENVELOPE_NONCE_LEN -> length th = h_len (hash CS) -> length prk = length rp ->
+    h_len (hash CS) <> 20 ->
+    envelope_keys CS rp nonce = Ok (ak, ek) ->
+    hkdf_expand_label CS prk STR_SESSION_KEY th = Ok sk -> sk = ek -> Bad (hash CS).
+Proof. exact @session_key_is_not_export_key. Qed.
+Print Assumptions C16_session_key_is_not_export_key.
